@@ -5,6 +5,7 @@ import (
 	"fmt"
 	"os"
 	"os/exec"
+	"sort"
 	"strings"
 
 	"github.com/gregoryv/mq"
@@ -26,7 +27,7 @@ func init() {
 		Level: "model_checking",
 		Rule: "(gate) the instrumenter verifies statically that the library uses no synchronisation (no sync / sync/atomic / chan / go / select). Under that gate a data race exists iff some read-only operation writes memory another operation accesses. " +
 			"(monitor, deciding step) explicit-state check on the statement-instrumented build: for every shared configuration (the bases and every <=1 (quick) / <=2 (thorough) field deviation of all 15 types, a will message shared between a CONNECT and direct use, two packets of different types side by side) and every read-only operation (WriteTo, String, Dump, WellFormed, all accessors; ReadPacket on a private stream) the deep digest of ALL shared state (packet graphs to cap + every package-level variable) is evaluated AT EVERY STATEMENT POINT of the operation; any change, even if restored later, is a shared write => violation with the statement as witness. " +
-			"(schedules) cooperative scheduler over the same statement points: 2 and 3 goroutines running 1-3 operations each on shared packets; ALL schedules with <=1 (quick) / <=2 (thorough) preemptions are executed on the real code (goroutine hand-offs only where the schedule says), every operation's output must equal its sequential reference and the final digest the initial one. " +
+			"(schedules) cooperative scheduler over the same statement points: 2 and 3 goroutines running 1-3 operations each on shared packets; ALL schedules with <=1 preemption (<=2 for scenarios of at most 700 scheduling points; thorough: <=2, and <=3 for scenarios of at most 300 points) are executed on the real code (goroutine hand-offs only where the schedule says), every operation's output must equal its sequential reference and the final digest the initial one. " +
 			"(race pass, secondary) the same scenario bodies free-running under the Go race detector, 16 goroutines from a barrier. states = distinct (configuration, statement point) monitor states; transitions = statement points executed under the monitor + schedules executed; distinct_nontrivial = distinct schedules with at least one preemption plus distinct monitored (configuration, operation) pairs.",
 		Assumptions: []string{
 			"statement granularity: the Go memory model below statement level is not explored; irrelevant while the shared write set is empty (every interleaving is then equivalent to a sequential one)",
@@ -429,15 +430,28 @@ func runC13(x *core.Ctx) {
 			}
 		}
 	}
-	// (schedules)
+	// (schedules) every scenario is spread over all workers by its
+	// first-level subtrees (first preemption point); shortest scenarios
+	// first, so that a deadline cuts the most expensive ones only
+	lens := map[string]int{}
 	for _, sc := range scs {
-		if !x.Mine() {
-			continue
-		}
+		probe := explore.NewSparseChooser(nil)
+		runSchedule(sc, probe)
+		lens[sc.Name] = probe.Points()
+	}
+	sort.SliceStable(scs, func(i, j int) bool { return lens[scs[i].Name] < lens[scs[j].Name] })
+	for _, sc := range scs {
 		sc := sc
 		ref := sequentialRef(sc)
+		// the length of the default schedule decides the affordable bound
+		L := lens[sc.Name]
 		bound := 1
-		if x.Thorough() {
+		switch {
+		case x.Thorough() && L <= 300:
+			bound = 3
+		case x.Thorough():
+			bound = 2
+		case L <= 700:
 			bound = 2
 		}
 		if !gateOK {
@@ -445,12 +459,18 @@ func runC13(x *core.Ctx) {
 		}
 		_, threads := sc.Setup()
 		e := &explore.SparseExplorer{Bound: bound}
+		if x.NShards > 1 {
+			e.Own = func(i int) bool { return i%x.NShards == x.Shard }
+		}
 		e.Run = func(c *explore.SparseChooser) bool {
 			devs := c.Devs()
 			outs, final, initial, s := runSchedule(sc, c)
-			x.Eval(fmt.Sprintf("schedules.bound%d", bound))
-			x.R.Transitions++
-			x.R.Traces++
+			if len(devs) > 0 || x.Shard == 0 {
+				// the root schedule is run by every worker but counted once
+				x.Eval(fmt.Sprintf("schedules.bound%d", bound))
+				x.R.Transitions++
+				x.R.Traces++
+			}
 			if len(devs) > 0 {
 				h := make([]int, 0, 2*len(devs))
 				for _, d := range devs {
@@ -488,6 +508,9 @@ func runC13(x *core.Ctx) {
 		}
 		if int64(e.MaxPts) > x.R.MaxDepth {
 			x.R.MaxDepth = int64(e.MaxPts)
+		}
+		if x.Shard == 0 {
+			x.R.Extra["scenarios"] = len(scs)
 		}
 		x.Sample("schedules", 3, func() any {
 			names := [][]string{}
